@@ -258,7 +258,7 @@ const c02Rule = "rapid draws 1..4 warriors (length 1..6, any of the 7616 forms, 
 
 func TestC02(t *testing.T) {
 	hx.Run(t, hx.Prop[battleCase]{
-		ID: "C02", Sub: "battle", Rule: c02Rule, Checks: hx.Scale(30000, 2000000),
+		ID: "C02", Sub: "battle", Rule: c02Rule, Checks: hx.Scale(30000, 12000000),
 		Gen:   func(rt *rapid.T) battleCase { return genBattle(rt, 4, false) },
 		Judge: judgeBattle,
 	})
